@@ -154,7 +154,7 @@ theorem on_codes (s : Schema) (d : Document) (r : RuleId) (σ : (ruleOf r).σ) (
   · simp only [noUndefinedVariables]
     repeat' split
     all_goals simp
-  · simp only [knownArgumentNames]
+  · simp only [knownArgumentNames, kaArgCheck]
     repeat' split
     all_goals simp
   · simp only [uniqueArgumentNames, Rule.stateless, duplicateArgErrors]
